@@ -545,6 +545,7 @@ def family(prop, t, sd):
         items += [{'fam': 'Mfloat', 'profile': 'nondyadic', 'model': g.gen_model(maxd=2)} for _ in range(n)]
     if prop == 'C07':
         items += integer_rounding_family(t)
+        items += ill_conditioned_family(t)
     lim = os.environ.get('VERIF_LIMIT')
     if lim:
         step = max(1, len(items) // int(lim))
@@ -575,6 +576,38 @@ def integer_rounding_family(t):
                         doms = {'x': D('Int', -6, 6), 'y': D('Int', -9, 9)}
                         chain = [gen.row(lhs, cmp_, rhs2), gen.row(['-', gen.var('y'), gen.var('x')], '>=', gen.num(0))]
                         out.append({'fam': 'Mint-round', 'profile': 'nondyadic', 'model': gen.mk_model('min', ['+', gen.var('x'), gen.var('y')], chain, doms)})
+    return out
+
+
+def ill_conditioned_family(t):
+    """rows mixing coefficients up to 18 orders of magnitude apart: a bound propagated through them is a small
+    difference of large numbers divided by a tiny coefficient, so an inward rounding error of one ulp is amplified
+    past every tolerance (the integer rounding tolerance 1e-9 from a ratio of about 1e7 on, the margin of this check
+    from 1e9 on). The propagated range must still contain every feasible value."""
+    out = []
+    D = gen.D
+    pairs = [(1e-9, 1e9), (1, 1e-9), (1 / 3, -1e-9), (1e-9, 1), (1e-7, 3), (3e8, 0.7), (1e-9, -1e9), (0.1, 1e-8)]
+    rhss = [0.1, -100000, 3, 0.7]
+    if t != 'quick':
+        pairs += [(1e-8, 1e8), (7e-9, 1.9), (1.1, 3e-9), (1e-6, 1e6), (2e9, -0.3), (1e-9, 0.1)]
+        rhss += [1e5, -0.3, 1e-3]
+    domsets = [
+        {'x': D('Real', 0, 'inf'), 'y': D('Int', -1, 2)},
+        {'x': D('Real', -5, 5), 'y': D('Real', -1000, 1000)},
+        {'x': D('Int', -3, 3), 'y': D('Real', '-inf', 'inf')},
+        {'x': D('NNReal', 0, 10), 'y': D('Int', -9, 9)},
+    ]
+    for (c0, c1) in pairs:
+        for b in rhss:
+            for cmp_ in ('=', '<=', '>='):
+                for di, doms in enumerate(domsets):
+                    lhs = ['+', ['*', gen.num(c0), gen.var('x')], ['*', gen.num(c1), gen.var('y')]]
+                    cons = [gen.row(lhs, cmp_, gen.num(b))]
+                    if di % 2:
+                        cons.append(gen.row(gen.var('x'), '<=', gen.num(3)))
+                    for od, oe in (('max', gen.var('x')), ('max', gen.var('y')), ('min', ['+', gen.var('x'), gen.var('y')])):
+                        if (di + len(out)) % 3 == 0 or t != 'quick':
+                            out.append({'fam': 'Mill', 'profile': 'ill-conditioned', 'model': gen.mk_model(od, oe, [dict(c) for c in cons], dict(doms))})
     return out
 
 
